@@ -27,7 +27,7 @@ fam(ScenarioFamily('deep', BUS_PROPS, _rand(gen.cfg(nb=(2, 4), levels=6, prog_le
 # parallel handlers
 fam(ScenarioFamily('parallel', BUS_PROPS, _rand(gen.cfg(p_par=0.6, p_idle=0.05, modes=['fire', 'await', 'await', 'later', 'await_result'])), 400, 4000))
 # forwarding between buses (one edge per (src,dst))
-fam(ScenarioFamily('forward', BUS_PROPS + ('C07',), _rand(gen.cfg(nb=(2, 4), p_fwd=1.0, p_idle=0.05, p_redisp=0.03, p_actor_redisp=0.06)), 600, 6000))
+fam(ScenarioFamily('forward', BUS_PROPS + ('C07',), _rand(gen.cfg(nb=(2, 4), p_fwd=1.0, p_idle=0.05, p_redisp=0.03, p_actor_redisp=0.1, p_redisp_other=0.6)), 600, 6000))
 # forwarding combined with small history limits (loop prevention must not depend on what the history still holds)
 fam(ScenarioFamily('forward_history', BUS_PROPS + ('C07',), _rand(gen.cfg(nb=(2, 4), p_fwd=1.0, hist=[1, 2, 3, 5, 10], actor_ops=(3, 9), p_idle=0.12, p_age=0.2)), 400, 4000))
 # small history limits
